@@ -49,7 +49,12 @@ def _mk(kind, Rc, Rx, ctor_px):
         # lemma hints (ghost): Sylvester determinant + Woodbury inverse of the marginal covariance
         P = post_precision(w, h, px)
         Sy4, _ = LM.sylvester(w, h.par["S"], h.par["ld"], px["S"], px["ld"], h.par["M"], P)
+        from .common import fresh_result, params_unchanged, snapshot as _snap
+        spx_, sc_ = _snap(p_x), _snap(h.obj)
         p_y = h.call("affine_marginal_transformation", p_x)            # REAL
+        fresh_result(w, "frame/result-is-a-new-object", p_y, p_x, h.obj)
+        params_unchanged(w, "frame/prior-unchanged", p_x, spx_, ("Sigma", "mu", "Lambda", "nu", "ln_beta", "ln_det_Sigma", "lnZ"))
+        params_unchanged(w, "frame/conditional-unchanged", h.obj, sc_, ("M", "b", "Sigma", "Lambda", "ln_det_Sigma"))
         mu_s, Sy_s = spec_marginal(w, h, px, Rc, Rx, Dy)
         w.equal("value/mu", p_y.mu, mu_s)
         w.equal("value/Sigma", p_y.Sigma, Sy_s)
